@@ -1,169 +1,20 @@
-import GoCrypt.Proofs.Parse
-import GoCrypt.Spec.RefParse
-import GoCrypt.Proofs.ParseRef
-import GoCrypt.Gen.Facts
+import GoCrypt.Props.C11Core
 import GoCrypt.Props.DispatchFlow
+import GoCrypt.Props.ParseFlow
 
 /-!
 # C11 — the hash parser terminates, loses no input and leaks no goroutine
 
-Property theorems only; helper lemmas are in `Proofs/Parse.lean`.
-The model (`Model/Parse.lean`) consists of total structurally recursive functions, so termination of
-`tokens`/`parse` is checked by Lean's kernel when the definitions are accepted.
+* `Props/C11Core.lean` (namespace `GoCrypt.C11`): the theorems about the parser model — lossless rendering, exact spans,
+  equality with the split-based reference, failure iff empty/unterminated identifier, the lexer's terminal token.
+* `Props/ParseFlow.lean`, `Props/DispatchFlow.lean`: the whole lexer and parser regenerated from the current source into a
+  structured IR (loops, switch, go, channel as a producer list) evaluate to that model for every input, never panic,
+  terminate, and leave every channel closed and drained.
+
+The obligations of C11 are the union.
 -/
 
 namespace GoCrypt.C11
-open Bytes GoCrypt.Parse
-
-/-- The `$` identifier is unterminated: nothing after the leading `$` is a delimiter. -/
-def Unterminated (s : Bytes) : Prop := ∃ rest, s = dollar :: rest ∧ ∀ c ∈ rest, c ≠ dollar ∧ c ≠ comma
-
-/-- The `$` identifier is empty: the leading `$` is directly followed by a delimiter. -/
-def EmptyIdent (s : Bytes) : Prop := ∃ d tl, s = dollar :: d :: tl ∧ (d = dollar ∨ d = comma)
-
-/-- (a) Parsing fails only for a `$`-prefixed string whose identifier is empty or unterminated — and
-then always; in every other case it returns a tree (never a nil-in-group state, never a read from a
-closed channel). -/
-theorem parse_error_iff (s : Bytes) :
-    (∃ o m, parse s = .err o m) ↔ (Unterminated s ∨ EmptyIdent s) := by
-  rcases parse_cases s with ⟨rest, hs, hi, hp⟩ | ⟨rest, hs, hi, hp⟩ | ⟨t, hp, _⟩
-  · constructor
-    · intro _; left; exact ⟨rest, hs, (indexDelim_none_iff rest).1 hi⟩
-    · intro _; exact ⟨_, _, hp⟩
-  · constructor
-    · intro _; right
-      obtain ⟨d, tl, hr, hd⟩ := (indexDelim_zero_iff rest).1 hi
-      exact ⟨d, tl, by rw [hs, hr], hd⟩
-    · intro _; exact ⟨_, _, hp⟩
-  · constructor
-    · rintro ⟨o, m, h⟩; rw [hp] at h; cases h
-    · intro h
-      exfalso
-      -- a tree was returned, so the input is neither unterminated nor empty-identifier
-      unfold parse tokens at hp
-      rcases h with ⟨rest, hs, hr⟩ | ⟨d, tl, hs, hd⟩
-      · subst hs
-        have : indexDelim rest = none := (indexDelim_none_iff rest).2 hr
-        simp [this, parseToks] at hp
-      · subst hs
-        have : indexDelim (d :: tl) = some 0 := (indexDelim_zero_iff _).2 ⟨d, tl, rfl, hd⟩
-        simp [this, parseToks] at hp
-
-/-- `parse` always returns either an error or a tree. -/
-theorem parse_total (s : Bytes) : (∃ o m, parse s = .err o m) ∨ (∃ t, parse s = .ok t) := by
-  rcases parse_cases s with ⟨_, _, _, hp⟩ | ⟨_, _, _, hp⟩ | ⟨t, hp, _⟩
-  · exact Or.inl ⟨_, _, hp⟩
-  · exact Or.inl ⟨_, _, hp⟩
-  · exact Or.inr ⟨t, hp⟩
-
-/-- (b) The lexer is lossless: when it reports no error, the token texts concatenate to the input. -/
-theorem lexer_lossless (s : Bytes) (h : ∀ t ∈ tokens s, ∀ p m, t ≠ Tok.error p m) :
-    ((tokens s).map Tok.text).flatten = s := by
-  unfold tokens at h ⊢
-  cases s with
-  | nil => simp [lexFrag_text]
-  | cons c rest =>
-    by_cases hc : c = dollar
-    · subst hc
-      simp only [if_true] at h ⊢
-      cases hi : indexDelim rest with
-      | none => simp [hi] at h
-      | some i =>
-        cases i with
-        | zero => simp [hi] at h
-        | succ i => simp [lexFrag_text, Tok.text]
-    · by_cases hu : c = underscore
-      · subst hu
-        have hne : underscore ≠ dollar := by decide
-        simp [hne, lexFrag_text, Tok.text]
-      · simp [hc, hu, lexFrag_text]
-
-/-- (c) On success the tree accounts for the whole input: prefix text followed by the fragments
-joined by `$`, group members joined by `,`, reconstructs the input up to one trailing delimiter. -/
-theorem parse_lossless (s : Bytes) (t : Tree) (h : parse s = .ok t) :
-    ∃ d, (d = [] ∨ d = [dollar] ∨ d = [comma]) ∧ t.render ++ d = s := by
-  rcases parse_cases s with ⟨_, _, _, hp⟩ | ⟨_, _, _, hp⟩ | ⟨t', hp, hf⟩
-  · rw [hp] at h; cases h
-  · rw [hp] at h; cases h
-  · rw [hp] at h; cases h; exact hf.lossless
-
-/-- (d) Every value node's reported span `[pos, fin)` is exactly the substring holding its text. -/
-theorem spans_exact (s : Bytes) (t : Tree) (h : parse s = .ok t) :
-    ∀ n ∈ t.nodes, n.fin = n.pos + n.val.length ∧ n.fin ≤ s.length ∧ (s.drop n.pos).take (n.fin - n.pos) = n.val := by
-  rcases parse_cases s with ⟨_, _, _, hp⟩ | ⟨_, _, _, hp⟩ | ⟨t', hp, hf⟩
-  · rw [hp] at h; cases h
-  · rw [hp] at h; cases h
-  · rw [hp] at h; cases h
-    intro n hn
-    obtain ⟨h1, h2, h3⟩ := hf.spans n hn
-    exact ⟨h1, h2, by rw [h1]; simpa using h3⟩
-
-/-- Groups are never empty (so `GroupNode.Pos/End`, which index `Values[0]`, cannot panic). -/
-theorem groups_nonempty (s : Bytes) (t : Tree) (h : parse s = .ok t) :
-    ∀ vs, Frag.group vs ∈ t.frags → vs ≠ [] := by
-  rcases parse_cases s with ⟨_, _, _, hp⟩ | ⟨_, _, _, hp⟩ | ⟨t', hp, hf⟩
-  · rw [hp] at h; cases h
-  · rw [hp] at h; cases h
-  · rw [hp] at h; cases h
-    intro vs hvs
-    simpa [Parse.Frag.nodes] using hf.groupsNe _ hvs
-
-/-- (f) The token `Parse` stops on is the last token the lexer sends: the lexer goroutine is never
-left blocked in a send on its unbuffered channel. -/
-theorem lexer_never_blocked (s : Bytes) : consumed (tokens s) = (tokens s).length := by
-  unfold tokens
-  cases s with
-  | nil => exact lexFrag_consumed _ _ _
-  | cons c rest =>
-    by_cases hc : c = dollar
-    · subst hc
-      simp only [if_true]
-      cases hi : indexDelim rest with
-      | none => simp [consumed, Tok.isTerminal]
-      | some i =>
-        cases i with
-        | zero => simp [consumed, Tok.isTerminal]
-        | succ i => simp [consumed, Tok.isTerminal, lexFrag_consumed]; omega
-    · by_cases hu : c = underscore
-      · subst hu
-        have hne : underscore ≠ dollar := by decide
-        simp [hne, consumed, Tok.isTerminal, lexFrag_consumed]; omega
-      · simp only [hc, hu, if_false]
-        exact lexFrag_consumed _ _ _
-
-/-- (e) The parser equals the independent split-based reference parser on every input — trees,
-node positions and error offsets included. -/
-theorem parse_eq_ref (s : Bytes) : parse s = GoCrypt.RefParse.refParse s := Parse.parse_eq_ref s
-
-/-- No value text contains a delimiter: comma-joined values never hide inside a value node. -/
-theorem values_no_delim (s : Bytes) (t : Tree) (h : parse s = .ok t) :
-    ∀ n ∈ t.nodes, ∀ c ∈ n.val, c ≠ dollar ∧ c ≠ comma := Parse.values_no_delim s t h
-
-/-- Comma-joined values always surface as exactly one group: fragments correspond one-to-one, in
-order, to the `$`-separated pieces after the prefix (an empty last piece yields no fragment), and a
-fragment is a group iff its piece contains a comma. -/
-theorem groups_surface_once (s : Bytes) (t : Tree) (h : parse s = .ok t) :
-    ∃ rest, GoCrypt.RefParse.refPrefix s = .ok (t.pfx, rest) ∧
-      t.frags.map Frag.isGroup =
-        (trimLast (GoCrypt.RefParse.splitOn dollar rest)).map (fun p => p.contains comma) :=
-  Parse.frag_group_iff_comma s t h
-
-/-! Non-vacuity: concrete inputs meeting the hypotheses. -/
--- "$x$a=1,b=2," : the group before the trailing comma is kept
-example : parse [36, 120, 36, 97, 61, 49, 44, 98, 61, 50, 44] =
-    .ok ⟨some [36, 120, 36], [.group [⟨[97, 61, 49], 3, 6⟩, ⟨[98, 61, 50], 7, 10⟩]]⟩ := by decide
--- "$abc" : unterminated identifier
-example : ∃ o m, parse [36, 97, 98, 99] = .err o m := ⟨4, 2, by decide⟩
-example : Unterminated [36, 97, 98, 99] := ⟨[97, 98, 99], rfl, by decide⟩
--- "$1$_abc" : one prefix only
-example : parse [36, 49, 36, 95, 97, 98, 99] = .ok ⟨some [36, 49, 36], [.value ⟨[95, 97, 98, 99], 3, 7⟩]⟩ := by decide
-
-/-- Regenerated from the current source: the parser package starts exactly one goroutine, the lexer's
-`run`, once per `lex` call and outside any loop (the producer of the rendezvous the model assumes). -/
-theorem lexer_goroutine_facts :
-    ((GoCrypt.Gen.Facts.goStmts.filter fun f => f.site == "hash/parse").map fun f => (f.fn, f.starts, f.loops, f.goCount)) =
-      [("lex", "l.run", [], 1)] := by
-  decide
 
 #print axioms lexer_goroutine_facts
 #print axioms parse_error_iff
@@ -176,9 +27,23 @@ theorem lexer_goroutine_facts :
 #print axioms parse_eq_ref
 #print axioms values_no_delim
 #print axioms groups_surface_once
-
--- lexPrefix regenerated from the source evaluates to the model's token stream (Props/DispatchFlow.lean)
 #print axioms GoCrypt.DispatchFlow.lexPrefixFlow_eq_model
 #print axioms GoCrypt.DispatchFlow.lexPrefixFlow_closed_form
 #print axioms GoCrypt.DispatchFlow.translated_fragment_lexer
+#print axioms GoCrypt.ParseFlow.lexFragmentFlow_eq_model
+#print axioms GoCrypt.ParseFlow.lexerFlow_eq_model
+#print axioms GoCrypt.ParseFlow.parseFlow_eq_model
+#print axioms GoCrypt.ParseFlow.parseFlow_returns
+#print axioms GoCrypt.ParseFlow.parseFlow_never_panics
+#print axioms GoCrypt.ParseFlow.parseFlow_terminates
+#print axioms GoCrypt.ParseFlow.lexerFlow_returns
+#print axioms GoCrypt.ParseFlow.parseFlow_error_iff
+#print axioms GoCrypt.ParseFlow.parseFlow_lossless
+#print axioms GoCrypt.ParseFlow.parseFlow_spans_exact
+#print axioms GoCrypt.ParseFlow.lexerFlow_lossless
+#print axioms GoCrypt.ParseFlow.translated_fragment
+#print axioms GoCrypt.ParseFlow.token_constants
+#print axioms GoCrypt.ParseFlow.token_struct
+#print axioms GoCrypt.ParseFlow.appends_overwrite_their_source
+
 end GoCrypt.C11
